@@ -50,29 +50,30 @@ mod sp_dual__perm1;
 mod sp_weighted__topar;
 mod set_reach__pari;
 mod set_reach__src2;
-mod cp__ser;
-mod lex_lat__ser;
-mod lat_two_keys__pari;
-mod lat_val_bound__pari;
-mod count_paths__gen;
-mod neg_basic__ser;
-mod neg_basic__src0;
-mod neg_basic__perm2;
-mod agg_depth__ser;
-mod agg_lattice__to;
-mod neg_rec_after__exp;
-mod agg_empty__to;
-mod agg_const_args__par;
-mod disj__topar;
-mod disj__init;
-mod disj__exppar;
-mod pat_args__pari;
-mod multi_head_disj__ser;
-mod neg_in_disj__exp;
-mod mac_basic__mrt;
-mod mac_basic__srcpar;
-mod mac_nested__ser;
-mod mac_gensym_disj__exp;
+mod bset__to;
+mod opt_lat__par;
+mod lat_two_keys__ser;
+mod lat_val_bound__ser;
+mod count_paths__run;
+mod count_paths__runpar;
+mod neg_basic__mrt;
+mod neg_basic__srcpar;
+mod agg_minmaxsum__par;
+mod agg_lattice__par;
+mod neg_rec_after__par;
+mod agg_empty__par;
+mod agg_empty_rel__topar;
+mod disj__pari;
+mod disj__src2;
+mod disj__permpar;
+mod pat_args__ser;
+mod rep_expr__exp;
+mod neg_in_disj__par;
+mod mac_basic__topar;
+mod mac_basic__init;
+mod mac_capture__exp;
+mod mac_gensym_disj__par;
+mod mac_disj__exppar;
 
 fn lookup(name: &str) -> fn() -> Box<dyn Driven> {
    match name {
@@ -118,29 +119,30 @@ fn lookup(name: &str) -> fn() -> Box<dyn Driven> {
       "sp_weighted__topar" => sp_weighted__topar::make,
       "set_reach__pari" => set_reach__pari::make,
       "set_reach__src2" => set_reach__src2::make,
-      "cp__ser" => cp__ser::make,
-      "lex_lat__ser" => lex_lat__ser::make,
-      "lat_two_keys__pari" => lat_two_keys__pari::make,
-      "lat_val_bound__pari" => lat_val_bound__pari::make,
-      "count_paths__gen" => count_paths__gen::make,
-      "neg_basic__ser" => neg_basic__ser::make,
-      "neg_basic__src0" => neg_basic__src0::make,
-      "neg_basic__perm2" => neg_basic__perm2::make,
-      "agg_depth__ser" => agg_depth__ser::make,
-      "agg_lattice__to" => agg_lattice__to::make,
-      "neg_rec_after__exp" => neg_rec_after__exp::make,
-      "agg_empty__to" => agg_empty__to::make,
-      "agg_const_args__par" => agg_const_args__par::make,
-      "disj__topar" => disj__topar::make,
-      "disj__init" => disj__init::make,
-      "disj__exppar" => disj__exppar::make,
-      "pat_args__pari" => pat_args__pari::make,
-      "multi_head_disj__ser" => multi_head_disj__ser::make,
-      "neg_in_disj__exp" => neg_in_disj__exp::make,
-      "mac_basic__mrt" => mac_basic__mrt::make,
-      "mac_basic__srcpar" => mac_basic__srcpar::make,
-      "mac_nested__ser" => mac_nested__ser::make,
-      "mac_gensym_disj__exp" => mac_gensym_disj__exp::make,
+      "bset__to" => bset__to::make,
+      "opt_lat__par" => opt_lat__par::make,
+      "lat_two_keys__ser" => lat_two_keys__ser::make,
+      "lat_val_bound__ser" => lat_val_bound__ser::make,
+      "count_paths__run" => count_paths__run::make,
+      "count_paths__runpar" => count_paths__runpar::make,
+      "neg_basic__mrt" => neg_basic__mrt::make,
+      "neg_basic__srcpar" => neg_basic__srcpar::make,
+      "agg_minmaxsum__par" => agg_minmaxsum__par::make,
+      "agg_lattice__par" => agg_lattice__par::make,
+      "neg_rec_after__par" => neg_rec_after__par::make,
+      "agg_empty__par" => agg_empty__par::make,
+      "agg_empty_rel__topar" => agg_empty_rel__topar::make,
+      "disj__pari" => disj__pari::make,
+      "disj__src2" => disj__src2::make,
+      "disj__permpar" => disj__permpar::make,
+      "pat_args__ser" => pat_args__ser::make,
+      "rep_expr__exp" => rep_expr__exp::make,
+      "neg_in_disj__par" => neg_in_disj__par::make,
+      "mac_basic__topar" => mac_basic__topar::make,
+      "mac_basic__init" => mac_basic__init::make,
+      "mac_capture__exp" => mac_capture__exp::make,
+      "mac_gensym_disj__par" => mac_gensym_disj__par::make,
+      "mac_disj__exppar" => mac_disj__exppar::make,
       _ => panic!("no such program variant in this shard: {}", name),
    }
 }
